@@ -34,7 +34,15 @@ type Violation struct {
 	Sched   []int             `json:"schedule,omitempty"`
 	Chooses []int64           `json:"chooses,omitempty"`
 	Extra   map[string]string `json:"extra,omitempty"`
+	UF      []UFEntry         `json:"uf,omitempty"`
+	Params  map[string]int64  `json:"params,omitempty"`
 	Site    string            `json:"site,omitempty"`
+}
+
+type UFEntry struct {
+	Name string   `json:"name"`
+	Args []uint64 `json:"args"`
+	V    uint64   `json:"v"`
 }
 
 type ReplayInput struct {
@@ -59,6 +67,7 @@ type Run struct {
 	obsStr  []string
 	raceObjs []*Obj
 	witness *Witness
+	pendingUF []UFEntry
 	viols   []*Violation
 	undo    []undoRec
 	mundo   []mapUndo
@@ -132,6 +141,10 @@ func (r *Run) query(extra *Term, install bool) Res {
 	var want []*Term
 	if install {
 		want = r.inputTerms()
+		for _, u := range r.ufApps {
+			want = append(want, u)
+			want = append(want, u.a...)
+		}
 	}
 	res, vals := s.CheckWith(extra, want)
 	r.w.nQueries++
@@ -151,6 +164,14 @@ func (r *Run) query(extra *Term, install bool) Res {
 		}
 		r.model = m
 		r.modelOK = true
+		r.pendingUF = nil
+		for _, u := range r.ufApps {
+			e := UFEntry{Name: u.name, V: vals[u]}
+			for _, a := range u.a {
+				e.Args = append(e.Args, vals[a])
+			}
+			r.pendingUF = append(r.pendingUF, e)
+		}
 	}
 	return res
 }
@@ -452,6 +473,9 @@ func (r *Run) violationModel(kind, msg, sig string, m *Model) {
 		v.Decs += d.String() + " "
 	}
 	v.Chooses = append([]int64(nil), r.chooses...)
+	v.Params = r.w.ex.cfg.Params
+	v.UF = r.pendingUF
+	r.pendingUF = nil
 	if r.sched != nil {
 		v.Sched = append([]int(nil), r.sched.history...)
 	}
@@ -461,4 +485,47 @@ func (r *Run) violationModel(kind, msg, sig string, m *Model) {
 // fallbackQuery re-decides PC ∧ extra with one-shot solver processes when the incremental session said unknown.
 func (w *Worker) fallbackQuery(r *Run, extra *Term) Res {
 	return Unknown
+}
+
+// makeWitness records, for a completed path, concrete inputs (a model of the path condition) and the
+// observable log evaluated under that model, for native cross-validation of the translator.
+func (r *Run) makeWitness() {
+	s := r.w.solver
+	want := r.inputTerms()
+	for _, o := range r.obs {
+		want = append(want, o.t)
+	}
+	for _, u := range r.ufApps {
+		want = append(want, u)
+		want = append(want, u.a...)
+	}
+	for _, t := range want {
+		s.define(t)
+	}
+	res, vals := s.CheckWith(r.ctx().True, want)
+	r.w.nQueries++
+	if res != Sat {
+		return
+	}
+	w := &Witness{Chooses: append([]int64(nil), r.chooses...)}
+	for _, in := range r.inputs {
+		w.Inputs = append(w.Inputs, ReplayInput{in.Name, in.T.w, vals[in.T]})
+	}
+	for _, o := range r.obs {
+		v, ok := vals[o.t]
+		if !ok {
+			return
+		}
+		w.Obs = append(w.Obs, fmt.Sprintf("%s=%d", o.label, v))
+	}
+	for _, u := range r.ufApps {
+		e := UFEntry{Name: u.name, V: vals[u]}
+		for _, a := range u.a {
+			e.Args = append(e.Args, vals[a])
+		}
+		w.UF = append(w.UF, e)
+	}
+	w.Decs = decsString(r.trace, 200)
+	w.Params = r.w.ex.cfg.Params
+	r.witness = w
 }
